@@ -398,7 +398,10 @@ impl TransformerContext {
     /// An element deferred by a forward reference is re-evaluated after its later
     /// siblings; it must see the variables as they were at its place in the document.
     pub fn swap_environment(&mut self, env: Vec<Scope>) -> Vec<Scope> {
-        std::mem::replace(&mut self.scope_stack, env)
+        let previous = std::mem::replace(&mut self.scope_stack, env);
+        #[cfg(feature = "verif")]
+        crate::verif::scope_changed("swap", self.scope_stack.len(), self.element_stack.len());
+        previous
     }
 
     pub fn push_element(&mut self, el: &SvgElement) {
